@@ -144,6 +144,9 @@ type transmit struct {
 }
 
 type world struct {
+	ackedAtReturn map[string]bool
+	diskAtReturn  map[string]bool
+	filesAtReturn int
 	p         params
 	root      string
 	cfgPath   string
@@ -548,6 +551,10 @@ func drive(w *world) explore.Verdict {
 		t0 := vsched.Elapsed()
 		orc.Shutdown()
 		w.stopTook = vsched.Elapsed() - t0
+		// what is acknowledged and what is on disk is read at the very moment Shutdown returns (the process exits next):
+		// goroutines still saving chunks after that moment do not count
+		w.ackedAtReturn = w.ackedStamps()
+		w.diskAtReturn, w.filesAtReturn = w.diskStamps()
 		vsched.Idle()
 		w.checkAtStop(g, last)
 	}
@@ -663,10 +670,10 @@ func driveReload(w *world) explore.Verdict {
 	}
 	vsched.Note("graceful stop")
 	orc.Shutdown()
-	vsched.Idle()
-	// ---- oracle
 	acked := w.ackedStamps()
 	disk, _ := w.diskStamps()
+	vsched.Idle()
+	// ---- oracle (acknowledged / on disk as of the moment Shutdown returned)
 	nAck, nDisk := 0, 0
 	for _, l := range w.lines {
 		if !l.accepted {
@@ -744,8 +751,10 @@ func (w *world) allDelivered() bool {
 
 // checkAtStop applies the oracles of the selected property at the end of a generation.
 func (w *world) checkAtStop(g int, last bool) {
-	acked := w.ackedStamps()
-	disk, files := w.diskStamps()
+	acked, disk, files := w.ackedAtReturn, w.diskAtReturn, w.filesAtReturn
+	if after, _ := w.diskStamps(); len(after) != len(disk) {
+		w.violate("files-change-after-shutdown-returned", "generation %d: %d records were in chunk files when Shutdown returned, %d once every goroutine had come to rest: chunks are still being saved or removed after the agent reported its shutdown complete", g, len(disk), len(after))
+	}
 	nAck, nDisk, nLost := 0, 0, 0
 	for _, l := range w.lines {
 		if !l.accepted {
